@@ -45,6 +45,7 @@ var (
 	ErrTxNotSign                 = errors.New("the transaction is not signed")
 	ErrTotalWeight               = errors.New("insufficient total weight of signatories")
 	ErrSignerAndFromUnequally    = errors.New("the signer and from of transaction are not equal")
+	ErrSurplusSignature          = errors.New("a transaction of an account without signers carries exactly one signature")
 	ErrGasPayer                  = errors.New("the gasPayer error")
 	ErrAddressType               = errors.New("address type wrong")
 	ErrTempAddress               = errors.New("the issuer part in temp address is incorrect")
@@ -226,6 +227,12 @@ func (p *TxProcessor) checkSignersWeight(sender common.Address, tx *types.Transa
 	accSigners := p.am.GetAccount(sender).GetSigners()
 	length := len(accSigners)
 	if length == 0 { // 非多签账户
+		// Only the first signature is looked at. Further ones would be ignored but change the
+		// transaction's hash, so anybody could append one to a signed transaction and have the
+		// same payment executed again under the new hash.
+		if len(signers) != 1 {
+			return ErrSurplusSignature
+		}
 		signer := signers[0]
 		// 判断签名者是否为from
 		if signer != sender {
